@@ -12,7 +12,9 @@
 #                   the identical oracle on the real class).  Per-cycle BFS to closure over every word choice, for all
 #                   354-symbol phases x owed-SKP counts x keystream positions 0..maxrun after a COM word.
 #
-# Oracle: FIFO of the words the link layer handed over (sink.ready high).  Every cycle the PHY transmits one word: it
+# Oracle: FIFO of the words the link layer handed over (sink.ready high).  The latency of the transmit path is not
+# fixed by the statement: it is measured once after reset (see prologue; up to MAX_EXTRA_LATENCY register stages more
+# than the current implementation are accepted).  From then on, every cycle the PHY transmits one word: it
 # must be either the oldest queued word scrambled with the reference keystream (serial LFSR x^16+x^5+x^4+x^3+1 from
 # USB 3.2 appendix B, written from the polynomial; advanced once per transmitted symbol, not for inserted SKPs, reset
 # by COM), or SKP SKP SKP SKP *in place of* a queued logical-idle filler word (one handed over with can_send_skp
@@ -29,7 +31,8 @@ TECHNIQUE = ("explicit-state model checking of the elaborated transmit path: per
              "against a FIFO / reference-LFSR / SKP book-keeping oracle; traces replayed in amaranth.sim")
 
 PERIOD = 354          # symbols per owed SKP ordered set  [USB3.2r1 6.4.3]
-SLACK = 1             # idle opportunities that may pass unused once two ordered sets are owed
+SLACK = 2             # idle opportunities that may pass unused once two ordered sets are owed
+MAX_EXTRA_LATENCY = 3 # the statement fixes no latency: up to this many further register stages between link layer and PHY
 LFSR_INIT = 0xFFFF
 
 COM, SKP, SHP, EPF, SDP, END = (0xBC, 1), (0x3C, 1), (0xFB, 1), (0xF7, 1), (0x5C, 1), (0xFD, 1)
@@ -88,7 +91,7 @@ def configs(tier):
         return [dict(dut="replica", mode="cycle", kinds="dzc", maxrun=3, scramble=1),
                 dict(dut="replica", mode="cycle", kinds="mkc", maxrun=3, scramble=1),
                 dict(dut="replica", mode="cycle", kinds="dc", maxrun=10, scramble=1),
-                dict(dut="replica", mode="cycle", kinds="mc", maxrun=2, scramble=0),
+                dict(dut="replica", mode="cycle", kinds="mc", maxrun=3, scramble=0),
                 dict(dut="layer", mode="macro", kinds="d", menu=[1, 3, 88], depth=8, scramble=1),
                 dict(dut="layer", mode="macro", kinds="m", menu=[2, 89, 177], depth=7, scramble=1),
                 dict(dut="layer", mode="macro", kinds="z", menu=[1, 87, 265], depth=7, scramble=1)]
@@ -187,102 +190,137 @@ class TxCtcSpec(Spec):
         a = ["tx_electrical_idle is low and enable_scrambling constant throughout",
              "the link layer offers one word per cycle, keeps it until sink.ready is high, and raises can_send_skp exactly "
              "with its logical-idle filler words (link/layer.py: arbiter.idle)",
-             "the first two cycles after reset are outside the property (sink.ready is a register that starts low; the word "
-             "offered meanwhile - logical idle, the PHY is still in reset - is transmitted once more)",
+             "start-up is outside the property: the link layer idles for one cycle after reset, then sends COM COM COM COM and "
+             "logical idle; whatever the PHY transmits before that COM word comes out (sink.ready starts low; the logical idle "
+             "offered meanwhile is transmitted once more) is not checked, and the latency measured there (up to "
+             f"{MAX_EXTRA_LATENCY} register stages more than today's) is taken as the pipeline depth",
              f"never more than {self.max_owed} SKP ordered sets become pending (the inserter's documented bound; its 3-bit "
              "counter wraps at 8): transitions beyond are pruned",
              f"once two ordered sets are owed, at most {SLACK} further idle filler word may pass before a SKP word is sent; "
              "an SKP word stands for two ordered sets (the implementation only inserts pairs)",
              "COM symbols only occur as whole COM COM COM COM words"]
         if self.maxrun is not None:
-            a.append(f"closure bound: keystream positions 0..{self.maxrun} after a COM word (longer COM-free runs are pruned; "
+            a.append(f"closure bound: at most {self.maxrun} words are handed over between two COM words, i.e. keystream positions "
+                     f"0..{self.maxrun} (longer COM-free runs are pruned; "
                      "the free-running keystream is covered by the bounded dut=layer configurations)")
         return a
 
-    # env = (queue of (kind) handed over but not yet transmitted, reference LFSR, words since COM, cands, held action)
-    # cands = frozenset of (tag, elapsed symbols mod 354, owed sets, idle opportunities missed while two sets are owed)
+    # env = (queue of words handed over but not yet transmitted, reference LFSR, words handed over since the last COM word,
+    #        book, held action)
+    #   book = frozenset of (tag, elapsed symbols mod 354, owed sets, idle opportunities missed while two sets are owed)
+    # The statement fixes no latency between link layer and PHY, so the prologue *measures* it: it hands over COM COM COM COM
+    # followed by logical idle and waits until "COM word, then the first scrambled idle word" shows up on the PHY (words the
+    # implementation transmits before that - reset values, repeats of not-yet-accepted words - are start-up garbage).
+    # From then on every transmit slot is accounted for.
     def prologue(self, cur):
-        o0 = cur.step(data=0, ctrl=0, can=1)
-        o1 = cur.step(data=0, ctrl=0, can=1)
-        q = ("I",) if o1.ready else ()
-        cands = frozenset(("A", e, 0, 0) for e in (0, 4))
-        return (q, LFSR_INIT, 0, cands, None)
+        def offer(kind):
+            w = WORDS[kind]
+            data = sum(b << 8 * i for i, (b, k) in enumerate(w)); ctrl = sum(k << i for i, (b, k) in enumerate(w))
+            o = cur.step(data=data, ctrl=ctrl, can=1 if kind == "I" else 0)
+            return o.ready, (o.tx_data, o.tx_datak)
+        offer("I")                                            # cycle 0: the PHY is still in reset, the link idles
+        com = scramble("c", LFSR_INIT, self.enable)
+        idle = scramble("I", LFSR_INIT, self.enable)
+        todo, accepted, prev = ["c"], [], None
+        for t in range(MAX_EXTRA_LATENCY + 8):
+            kind = todo[0] if todo else "I"
+            ready, out = offer(kind)
+            found = "c" in accepted and "I" in accepted[1:] + [None] and prev == com[:2] and out == idle[:2]
+            if ready:
+                accepted.append(kind); todo = todo[1:]
+            if found:
+                book = frozenset(("A", e, 0, 0) for e in (8, 12))
+                return (tuple(accepted[2:]), idle[2], len(accepted) - 1, book, None if ready else (kind,) if self.cfg["mode"] == "cycle" else (kind, 1))
+            prev = out
+        return ("calibration-failed", tuple(accepted))
 
     def env0(self):
         raise AssertionError("prologue provides the initial environment")
 
     def actions(self, env):
+        if env[0] == "calibration-failed": return self._acts[:1]
         if env[4] is not None: return [env[4]]
         return self._acts
 
+    def advance(self, hyp, out, events):
+        """one transmit slot under one hypothesis -> new hypothesis, or (rule, detail) if the slot contradicts it"""
+        queue, lfsr, run, book = hyp
+        if not queue:
+            return hyp                                    # nothing handed over yet: the slot is unconstrained
+        head = queue[0]
+        ed, ec, lfsr2 = scramble(head, lfsr, self.enable)
+        if out == (ed, ec):
+            slot = "idle" if head == "I" else "data"
+            lfsr = lfsr2
+            if head == "c": events.append("com_reseed")
+        elif out == SKP_WORD:
+            if head != "I":
+                return ("skp-replaced-non-idle-word", dict(replaced=head, queue=queue))
+            slot = "skp"
+        else:
+            # diagnose: right word, wrong keystream?
+            plain_ctrl_ok = out[1] == ec and all((out[0] >> 8 * i & 0xFF) == (ed >> 8 * i & 0xFF) for i in range(4) if ec >> i & 1)
+            if plain_ctrl_ok and self.enable:
+                return ("scrambler-keystream-mismatch",
+                        dict(word=head, expected=hex(ed), got=hex(out[0]), reference_lfsr=hex(lfsr)))
+            return ("tx-stream-mismatch", dict(expected_word=head, expected=(hex(ed), ec), got=(hex(out[0]), out[1]), queue=queue))
+        queue = queue[1:]
+        new = set(); why = None
+        for tag, el, owed, missed in book:
+            if slot == "skp":
+                if owed < 2: why = why or "skp-sent-but-not-owed"; continue
+                owed -= 2; missed = 0
+            elif slot == "idle" and owed >= 2:
+                missed += 1
+                if missed > SLACK: why = "skp-owed-but-idle-not-used"; continue
+            el += 4
+            if el >= PERIOD: el -= PERIOD; owed += 1
+            new.add((tag, el, owed, missed))
+        if not new:
+            return (why, dict(slot=slot, book=sorted(book)))
+        mo = max(c[2] for c in new)
+        if slot == "skp":
+            events.append("skp_inserted")
+            if lfsr != LFSR_INIT: events.append("skp_inserted_midstream")
+        elif slot == "idle": events.append("idle_passed")
+        else:
+            events.append("data_word")
+            if mo >= 2: events.append("skp_deferred_by_data")
+            if mo >= 2 and head == "z": events.append("zero_data_word_not_replaced")
+        if mo >= 3: events.append("three_owed")
+        self.outcomes.add((slot, head, mo))
+        return (queue, lfsr, run, frozenset(new))
+
     def one_cycle(self, cur, env, kind):
-        queue, lfsr, pos, cands, held = env
+        if env[0] == "calibration-failed":
+            raise Violation("tx-stream-mismatch", dict(note="COM word followed by scrambled logical idle never appeared on the PHY after reset",
+                                                       handed_over=env[1]))
+        held = env[4]
         w = WORDS[kind]
         data = ctrl = 0
         for i, (b, k) in enumerate(w):
             data |= b << (8 * i); ctrl |= k << i
         o = cur.step(data=data, ctrl=ctrl, can=1 if kind == "I" else 0)
-        out = (o.tx_data, o.tx_datak)
-        if queue:
-            head = queue[0]
-            ed, ec, lfsr2 = scramble(head, lfsr, self.enable)
-            if out == (ed, ec):
-                slot = "idle" if head == "I" else "data"
-                lfsr = lfsr2
-                pos = 0 if head == "c" else pos + 1
-                if head == "c": self.cover["com_reseed"] += 1
-            elif out == SKP_WORD:
-                if head != "I":
-                    raise Violation("skp-replaced-non-idle-word", dict(replaced=head, queue=queue))
-                slot = "skp"
-            else:
-                # diagnose: right word, wrong keystream?
-                plain_ctrl_ok = out[1] == ec and all((out[0] >> 8 * i & 0xFF) == (ed >> 8 * i & 0xFF) for i in range(4) if ec >> i & 1)
-                if plain_ctrl_ok and self.enable:
-                    raise Violation("scrambler-keystream-mismatch",
-                                    dict(word=head, expected=hex(ed), got=hex(out[0]), reference_lfsr=hex(lfsr), words_since_com=pos))
-                raise Violation("tx-stream-mismatch", dict(expected_word=head, expected=(hex(ed), ec), got=(hex(out[0]), out[1]), queue=queue))
-            queue = queue[1:]
-            new = set(); why = None
-            for conv, el, owed, missed in cands:
-                if slot == "skp":
-                    if owed < 2: why = why or "skp-sent-but-not-owed"; continue
-                    owed -= 2; missed = 0
-                elif slot == "idle" and owed >= 2:
-                    missed += 1
-                    if missed > SLACK: why = "skp-owed-but-idle-not-used"; continue
-                el += 4
-                if el >= PERIOD: el -= PERIOD; owed += 1
-                new.add((conv, el, owed, missed))
-            if not new:
-                raise Violation(why, dict(slot=slot, candidates=sorted(cands)))
-            cands = frozenset(new)
-            mo = max(c[2] for c in cands)
-            if mo > self.max_owed: return None
-            if slot == "skp":
-                self.cover["skp_inserted"] += 1
-                if pos: self.cover["skp_inserted_midstream"] += 1
-            elif slot == "idle": self.cover["idle_passed"] += 1
-            else:
-                self.cover["data_word"] += 1
-                if mo >= 2: self.cover["skp_deferred_by_data"] += 1
-                if mo >= 2 and head == "z": self.cover["zero_data_word_not_replaced"] += 1
-            if mo >= 3: self.cover["three_owed"] += 1
-            self.outcomes.add((slot, head, mo))
-            if self.maxrun is not None and pos > self.maxrun: return None
+        events = []
+        r = self.advance(env[:4], (o.tx_data, o.tx_datak), events)
+        if len(r) == 2: raise Violation(r[0], r[1])
+        queue, lfsr, run, book = r
         if o.ready:
-            queue = queue + (kind,); held = None
-        else:
-            held = kind
-        if len(queue) > 2:
+            queue = queue + (kind,)
+            run = 0 if kind == "c" else run + 1
+        if len(queue) > MAX_EXTRA_LATENCY + 2:
             raise Violation("tx-word-delayed", dict(queue=queue))
-        return (queue, lfsr, pos, cands, held)
+        for e in events: self.cover[e] += 1
+        # environment bounds (see assumptions): pending SKP sets, COM-free run length
+        if max(c[2] for c in book) > self.max_owed: return None
+        if self.maxrun is not None and run > self.maxrun: return None
+        return (queue, lfsr, run, book, None if o.ready else kind)
 
     def apply(self, cur, env, a):
         macro = len(a) == 2
         kind, n = a if macro else (a[0], 1)
         for i in range(n):
-            env = self.one_cycle(cur, env[:4] + (None,), kind)
+            env = self.one_cycle(cur, env[:4] + (None,) if env[0] != "calibration-failed" else env, kind)
             if env is None: return None
         if env[4] is not None:          # not accepted in the last cycle: the link layer must offer that word again
             env = env[:4] + ((kind, 1) if macro else (kind,),)
